@@ -99,6 +99,8 @@ def gen_case(seed, shard, i):
             return M.gen_flatten3_discordant(rnd), rnd
         if i % 16 == 11:
             return M.gen_flatten_lookup(rnd), rnd
+        if i % 16 == 3:
+            return M.gen_two_dynamic_flattens(rnd), rnd
         if i % 16 == 15:
             base, info = G.gen_plain(rnd, products_only=True, allow_take=False, max_ranks=4)
             s = M.add_double_flatten(rnd, base, info)
